@@ -30,6 +30,8 @@ META = {
 }
 META["technique"] += '; must-pass-through of the cache-hit rebinding (shared with C14.R2)'
 META["level_text"] += ' Also decided (R2b): the one in-place update of a shared Template (cache-hit global_data rebinding, a known finding) is unconditional on every path to the hit.'
+META["technique"] += "; declared-type lint for order-sensitive consumption of sets (hash-seed dependent order)"
+META["level_text"] += " Also decided (R6, R7): hash() is used only inside __hash__, and no set/frozenset-typed expression is consumed in iteration order outside sorted() (both would make a render depend on PYTHONHASHSEED)."
 
 MUTATORS = {"append", "extend", "insert", "pop", "remove", "clear", "sort", "reverse", "update", "setdefault", "popitem", "add", "discard", "appendleft", "popleft", "move_to_end", "__setitem__", "__delitem__", "difference_update", "intersection_update", "symmetric_difference_update"}
 MEMO_DECORATORS = {"functools.lru_cache", "functools.cache", "functools.cached_property", "lru_cache", "cache", "cached_property"}
@@ -327,6 +329,7 @@ def run(prog: Program, res: Result) -> None:  # noqa: PLR0912, PLR0915
                 else:
                     res.fail("C09.R6", file=mod.relpath, line=c.lineno, qualname=q, construct=f"{norm(c, 50)} used as a key in {q}", message=f"{q} uses `{norm(c, 50)}` as an identity: two different values with the same hash share one entry (hash(-1) == hash(-2), hash(1) == hash(1.0)) and the value differs between processes, so the result of a render depends on more than its inputs", what=what)
     res.floor("C09.R6", "hash() calls", n_hash, 10)
+    _set_order_rule(prog, res)
     res.rule("C09.R5", "Environment.__init__ creates its own filters/tags registries; registries are written only by registration functions on the environment being configured; stateful filter/tag objects are constructed inside the registration call")
     env = prog.cls("liquid2.environment.Environment")
     einit = env.methods.get("__init__")
@@ -352,6 +355,60 @@ def run(prog: Program, res: Result) -> None:  # noqa: PLR0912, PLR0915
                 res.fail("C09.R5", file=mod.relpath, line=val.lineno, qualname="registration", construct=f"registry[{name!r}] = {val.id} (module-level instance)", message="a module-level filter/tag instance is registered: its state is shared by every environment", what="registered objects are per-environment")
     res.floor("C09.R5", "registrations", n_reg, 90)
     res.ok("C09.R5", "liquid2/builtin/__init__.py", "registered tags/filter objects are constructed inside the registration call", f"{n_reg} registrations")
+
+
+_R7_EXEMPT = {
+    "Template.variable_paths", "Template.variable_paths_async", "Template.variable_segments", "Template.variable_segments_async",
+    "Template.global_variable_paths", "Template.global_variable_paths_async", "Template.global_variable_segments", "Template.global_variable_segments_async",
+}  # analysis conveniences documented as "a list of distinct paths" (order unspecified); not a render
+
+
+def _set_order_rule(prog: Program, res: Result) -> None:
+    """C09.R7: the iteration order of a set/frozenset of strings changes from process to process (PYTHONHASHSEED)."""
+    from sa.types import TypeApprox
+
+    res.rule("C09.R7", "no order-sensitive consumption (for / comprehension / list() / tuple() / join / iter / unpacking) of a set- or frozenset-typed expression outside sorted(): set order depends on PYTHONHASHSEED, so anything built from it differs between two renders of the same inputs in different processes")
+    T = TypeApprox(prog)
+    order_free = {"sorted", "len", "any", "all", "sum", "min", "max", "set", "frozenset", "bool"}
+
+    def consumers(fi: FunctionInfo):  # noqa: ANN202
+        for n in ast.walk(fi.node):
+            if isinstance(n, (ast.For, ast.AsyncFor)):
+                yield n, n.iter, "for"
+            elif isinstance(n, (ast.ListComp, ast.DictComp, ast.GeneratorExp)):
+                for g in n.generators:
+                    yield n, g.iter, "comprehension"
+            elif isinstance(n, ast.Call) and isinstance(n.func, ast.Name) and n.func.id in ("list", "tuple", "iter", "next", "enumerate", "zip", "map", "filter", "reversed", "deque", "chain") and n.args:
+                for a in n.args:
+                    yield n, a, f"{n.func.id}()"
+            elif isinstance(n, ast.Call) and isinstance(n.func, ast.Attribute) and n.func.attr in ("join", "extend", "from_iterable", "extendleft") and n.args:
+                yield n, n.args[0], f".{n.func.attr}()"
+            elif isinstance(n, ast.Starred):
+                yield n, n.value, "unpacking"
+
+    n_sites = n_exempt = 0
+    for fi in sorted(prog.all_functions(), key=lambda f: (f.file, f.node.lineno)):
+        if fi.parent_fn is not None:
+            continue  # nested functions are walked with their parent
+        for n, it, kind in consumers(fi):
+            t = T.of(fi, it)
+            if not t or not any(p.strip().split("[")[0].lower() in ("set", "frozenset", "abstractset", "keysview_of_set") for p in t.split("|")):
+                continue
+            # a generator/comprehension whose only consumer is an order-free reducer: any(... for x in S)
+            par = fi.module.parent(n) if hasattr(fi.module, "parent") else None
+            if isinstance(n, (ast.GeneratorExp, ast.ListComp)) and isinstance(par, ast.Call) and isinstance(par.func, ast.Name) and par.func.id in order_free:
+                continue
+            if isinstance(n, ast.SetComp):
+                continue
+            n_sites += 1
+            what = f"{fi.qualname}: {kind} over `{norm(it, 50)}` ({t})"
+            if fi.qualname in _R7_EXEMPT:
+                n_exempt += 1
+                res.ok("C09.R7", f"{fi.file}:{n.lineno} {fi.qualname}", what, "exempt: analysis convenience returning 'distinct' paths, order unspecified; not a render")
+            else:
+                res.fail("C09.R7", file=fi.file, line=n.lineno, qualname=fi.qualname, construct=f"{kind} over set-typed `{norm(it, 50)}`", message=f"{fi.qualname} consumes the set-typed `{norm(it, 50)}` in iteration order ({kind}): for strings that order changes with PYTHONHASHSEED, so the result differs between processes for the same inputs; wrap it in sorted()", what=what)
+    res.floor("C09.R7", "set-ordered consumption sites recognised (the exempt analysis helpers)", n_exempt, 4)
+    res.stats["set_order_sites"] = n_sites
 
 
 def _owner(prog: Program, fam: dict[str, str], fi: FunctionInfo, tgt: ast.AST, stmt: ast.AST) -> tuple[str, bool, str] | None:
